@@ -497,6 +497,10 @@ fn run_parser_cmd(args: &[String]) -> i32 {
                 let mut lines = vec![];
                 for (i, beh) in behs.iter().enumerate().filter(|(i, _)| i % THREADS == t) {
                     for pr in Proto::all() {
+                        if family.starts_with("c05") && !pr.has_assertion() {
+                            // footer / assertion histories: the protocols that have implicit assertions
+                            continue;
+                        }
                         let slow = pr.public && (pr.v == 1 || pr.v == 3);
                         // v4.local / v4.public carry every history; the other six protocols (same parser
                         // code, different core call) a sample
@@ -739,6 +743,20 @@ fn run_coreobj_cmd(args: &[String]) -> i32 {
                                     }
                                     oj["res"] = json!("ok");
                                     oj["reads"] = json!(reads);
+                                    // C08 / C05: the footer segment of the minted text (present iff the footer is non-empty)
+                                    let segs: Vec<&str> = tok.split('.').collect();
+                                    let fseg = if segs.len() == 3 {
+                                        "none".to_string()
+                                    } else if segs.len() == 4 {
+                                        match edits::unb64(segs[3]) {
+                                            Some(d) if d.is_empty() => "emptyseg".to_string(),
+                                            Some(d) if d == f1.as_bytes() && edits::b64(&d) == segs[3] => "f1".to_string(),
+                                            _ => "other".to_string(),
+                                        }
+                                    } else {
+                                        format!("{}-segments", segs.len())
+                                    };
+                                    oj["fseg"] = json!(fseg);
 
                                 }
                                 o => {
